@@ -150,6 +150,9 @@ func (w *WaitGroup) Add(d int) {
 
 func (w *WaitGroup) Done() { w.Add(-1) }
 
+// VerifCount returns the counter (harness observation, controlled executions only).
+func (w *WaitGroup) VerifCount() int { return w.n }
+
 func (w *WaitGroup) Wait() {
 	if !sched.Active() {
 		w.real.Wait()
